@@ -20,11 +20,12 @@ import (
 // sub-cluster and backend for every probe of a fixed probe set.
 
 type c14Case struct {
-	Docs      [nFiles]obj
-	Hist      [2]obj // gslb, cluster_table loaded before the final ones are reloaded over them
-	HistKinds [3]int
-	Shapes []string
-	Probes []c14Probe
+	Docs           [nFiles]obj
+	Hist           [2]obj // gslb, cluster_table loaded before the final ones are reloaded over them
+	HistKinds      [3]int
+	StickyClusters []string
+	Shapes         []string
+	Probes         []c14Probe
 }
 
 type c14Probe struct {
@@ -37,8 +38,8 @@ type c14Probe struct {
 
 // c14Cluster: WRR balancing hashed by client IP (the only combination whose first decision
 // on a freshly loaded table is not random by design).
-func c14Cluster() obj {
-	return obj{{"GslbBasic", obj{{"CrossRetry", 0}, {"RetryMax", 2}, {"BalanceMode", "WRR"}, {"HashConf", obj{{"HashStrategy", 1}, {"SessionSticky", false}}}}}}
+func c14Cluster(sticky bool) obj {
+	return obj{{"GslbBasic", obj{{"CrossRetry", 0}, {"RetryMax", 2}, {"BalanceMode", "WRR"}, {"HashConf", obj{{"HashStrategy", 1}, {"SessionSticky", sticky}}}}}}
 }
 
 var c14ClusterNames = []string{"k1", "k2", "k3"}
@@ -58,12 +59,13 @@ type c14Draws struct {
 	HistKind [3]int // 0 same members, other weights; 1 some members missing; 2 an extra member; 3 cluster missing
 	HistDrop [3]int // bit j: sub-cluster j missing in the history (kind 1)
 	HistW    [3][6]int
-	Default bool
-	BDup    int
-	NSub    [3]int
-	GW      [3][6]int
-	NB      [3][6]int
-	BW      [3][6][4]int
+	Sticky   [3]bool // SessionSticky (backend chosen by hash over the address-sorted list: no run-time state)
+	Default  bool
+	BDup     int
+	NSub     [3]int
+	GW       [3][6]int
+	NB       [3][6]int
+	BW       [3][6][4]int
 }
 
 func drawC14(rt *rapid.T) c14Draws {
@@ -87,7 +89,9 @@ func drawC14(rt *rapid.T) c14Draws {
 	for i := 0; i < 3; i++ {
 		d.Single[i] = rapid.IntRange(0, 2).Draw(rt, "single") == 1
 		d.KeepIdx[i] = rapid.IntRange(0, 5).Draw(rt, "keepidx")
-		d.HistKind[i] = []int{1, 0, 1, 2, 1, 3}[rapid.IntRange(0, 5).Draw(rt, "histkind")]
+		// 4 = same members, in every sub-cluster the first backend (lowest address) replaced one-for-one
+		d.HistKind[i] = []int{1, 0, 4, 2, 1, 3, 4}[rapid.IntRange(0, 6).Draw(rt, "histkind")]
+		d.Sticky[i] = rapid.IntRange(0, 2).Draw(rt, "sticky") == 1
 		d.HistDrop[i] = rapid.IntRange(1, 62).Draw(rt, "histdrop")
 		d.NSub[i] = rapid.IntRange(3, 6).Draw(rt, "nsub")
 		for j := 0; j < 6; j++ {
@@ -215,8 +219,14 @@ func buildC14(d c14Draws, withAmb bool) c14Case {
 	}
 	c.Docs[fRoute] = obj{{"Version", "v1"}, {"BasicRule", basic}, {"ProductRule", adv}}
 	cc := obj{}
-	for _, k := range c14ClusterNames {
-		cc = append(cc, kv{k, c14Cluster()})
+	for i, k := range c14ClusterNames {
+		cc = append(cc, kv{k, c14Cluster(d.Sticky[i])})
+		if d.Sticky[i] {
+			c.StickyClusters = append(c.StickyClusters, k)
+			if !hasShape("session-sticky-cluster") {
+				shape("session-sticky-cluster")
+			}
+		}
 	}
 	c.Docs[fCluster] = obj{{"Version", "v1"}, {"Config", cc}}
 	gc, ct := obj{}, obj{}
@@ -255,7 +265,14 @@ func buildC14(d c14Draws, withAmb bool) c14Case {
 					hw = w
 				}
 				hg = append(hg, kv{sub, hw})
-				ht = append(ht, kv{sub, bl})
+				hbl := bl
+				if d.HistKind[i] == 4 {
+					// the backend with the lowest address is new in the final files; the history had another
+					// one (higher address) in its place
+					hbl = append([]any{}, bl...)
+					hbl[0] = obj{{"Addr", fmt.Sprintf("10.%d.%d.200", i, j)}, {"Name", fmt.Sprintf("b-%d-%d-old", i, j)}, {"Port", 8000}, {"Weight", d.BW[i][j][0]}}
+				}
+				ht = append(ht, kv{sub, hbl})
 			}
 		}
 		if d.HistKind[i] == 2 || len(hg) == 0 {
@@ -300,6 +317,11 @@ func buildC14(d c14Draws, withAmb bool) c14Case {
 				Client: fmt.Sprintf("192.168.%d.%d", i, j+1)})
 		}
 	}
+	for i, p := range ps {
+		for x := 0; x < 6; x++ {
+			c.Probes = append(c.Probes, c14Probe{Method: "GET", Host: "www." + p.dom, Path: []string{"/a/b", "/zzz"}[x%2], Client: fmt.Sprintf("172.16.%d.%d", i, 3*x+1)})
+		}
+	}
 	return c
 }
 
@@ -327,6 +349,8 @@ func c14Interpret(dir string, paths [nFiles]string, probes []c14Probe, hist *[2]
 			}
 			bt.SetGslbBasic(sdc.ClusterTable)
 			bt.SetSlowStart(sdc.ClusterTable)
+			// the server is in service between start and reload: serve the probe set once
+			c14Serve(sdc, bt, probes)
 			gslbConf, backendConf, err := bt.BalTableConfLoad(paths[fGslb], paths[fCTable])
 			if err != nil {
 				out = "REJECT(bal-table)"
@@ -339,40 +363,46 @@ func c14Interpret(dir string, paths [nFiles]string, probes []c14Probe, hist *[2]
 		}
 		bt.SetGslbBasic(sdc.ClusterTable)
 		bt.SetSlowStart(sdc.ClusterTable)
-		var sb strings.Builder
-		for _, p := range probes {
-			var vip net.IP
-			if p.Vip != "" {
-				vip = net.ParseIP(p.Vip)
-			}
-			req := newReq(p.Method, p.Host, p.Path, vip, sdc)
-			req.ClientAddr = &net.TCPAddr{IP: net.ParseIP(p.Client), Port: 1234}
-			fmt.Fprintf(&sb, "%s %s%s vip=%s -> ", p.Method, p.Host, p.Path, p.Vip)
-			if err := sdc.HostTable.LookupHostTagAndProduct(req); err != nil {
-				sb.WriteString("no-product\n")
-				continue
-			}
-			fmt.Fprintf(&sb, "product=%s ", req.Route.Product)
-			if err := sdc.HostTable.LookupCluster(req); err != nil {
-				sb.WriteString("no-cluster\n")
-				continue
-			}
-			fmt.Fprintf(&sb, "cluster=%s ", req.Route.ClusterName)
-			bal, err := bt.Lookup(req.Route.ClusterName)
-			if err != nil {
-				sb.WriteString("no-balancer\n")
-				continue
-			}
-			be, err := bal.Balance(req)
-			if err != nil {
-				fmt.Fprintf(&sb, "sub=%s balance-error\n", req.Backend.SubclusterName)
-				continue
-			}
-			fmt.Fprintf(&sb, "sub=%s backend=%s/%s\n", req.Backend.SubclusterName, be.Name, be.AddrInfo)
-		}
-		out = sb.String()
+		out = c14Serve(sdc, bt, probes)
 	})
 	return out, pi
+}
+
+// c14Serve sends every probe through product lookup, cluster lookup and balancing and returns the decisions.
+func c14Serve(sdc *bfe_route.ServerDataConf, bt *bfe_balance.BalTable, probes []c14Probe) string {
+	var sb strings.Builder
+	for _, p := range probes {
+		var vip net.IP
+		if p.Vip != "" {
+			vip = net.ParseIP(p.Vip)
+		}
+		req := newReq(p.Method, p.Host, p.Path, vip, sdc)
+		req.ClientAddr = &net.TCPAddr{IP: net.ParseIP(p.Client), Port: 1234}
+		fmt.Fprintf(&sb, "%s %s%s vip=%s -> ", p.Method, p.Host, p.Path, p.Vip)
+		if err := sdc.HostTable.LookupHostTagAndProduct(req); err != nil {
+			sb.WriteString("no-product\n")
+			continue
+		}
+		fmt.Fprintf(&sb, "product=%s ", req.Route.Product)
+		if err := sdc.HostTable.LookupCluster(req); err != nil {
+			sb.WriteString("no-cluster\n")
+			continue
+		}
+		fmt.Fprintf(&sb, "cluster=%s ", req.Route.ClusterName)
+		bal, err := bt.Lookup(req.Route.ClusterName)
+		if err != nil {
+			sb.WriteString("no-balancer\n")
+			continue
+		}
+		be, err := bal.Balance(req)
+		if err != nil {
+			fmt.Fprintf(&sb, "sub=%s balance-error\n", req.Backend.SubclusterName)
+			continue
+		}
+		// the decision is the address the request is sent to (two entries may carry the same address)
+		fmt.Fprintf(&sb, "sub=%s backend=%s\n", req.Backend.SubclusterName, be.AddrInfo)
+	}
+	return sb.String()
 }
 
 func firstDiff(a, b string) string {
@@ -475,6 +505,25 @@ func c14Check(tb ev.TB, rec *ev.Rec, dir string, c *c14Case, nload int, ambiguou
 			rec.Fail(tb, key, w, "the final files reloaded over a history (gslb %s) are interpreted differently from a fresh load of the same files: %s", string(mustJSON(c.Hist[0])), d)
 			return
 		}
+		// (iii) clusters with SessionSticky choose the backend by hash over the address-sorted list, which is no
+		// run-time state: there the backend must be that of a fresh load too
+		if sf, sa := stickyLines(first, c.StickyClusters), stickyLines(again, c.StickyClusters); sf != sa {
+			key := "reload-sticky-backend-differs-from-fresh-load"
+			for _, sh := range c.Shapes {
+				if sh == "duplicate-backend" {
+					key += "-duplicate-backend"
+				}
+			}
+			w["fresh"], w["reloaded"], w["history_gslb"], w["history_cluster_table"] = first, again, c.Hist[0], c.Hist[1]
+			d := firstDiff(sf, sa)
+			if !rec.Known(key) {
+				fmt.Printf("VIOLATION-CANDIDATE property=C14 key=%s: %s\n", key, d)
+			}
+			if rec.Fail(tb, key, w, "session-sticky cluster: the final files reloaded over a history (cluster_table %s) choose another backend than a fresh load of the same files: %s", string(mustJSON(c.Hist[1])), d) {
+				return
+			}
+			break
+		}
 		// (ii) map iteration order: the same history + reload, repeated, must give the same decisions, backend included
 		if n == 0 {
 			firstReloaded = again
@@ -491,6 +540,19 @@ func c14Check(tb ev.TB, rec *ev.Rec, dir string, c *c14Case, nload int, ambiguou
 			break
 		}
 	}
+}
+
+// stickyLines keeps the signature lines of requests routed to one of the given clusters.
+func stickyLines(sig string, clusters []string) string {
+	var out []string
+	for _, l := range strings.Split(sig, "\n") {
+		for _, k := range clusters {
+			if strings.Contains(l, " cluster="+k+" ") {
+				out = append(out, l)
+			}
+		}
+	}
+	return strings.Join(out, "\n")
 }
 
 // stripBackend removes the backend part of every line of a load signature.
